@@ -1,4 +1,5 @@
 import LentilVerif.Model.Energy
+import LentilVerif.Gen.BlurWiring
 /-! Executable model of the Fourier-domain blurs (C19): `detector.pixel`, `convolvable.jitter`, `convolvable.smear`.
 `out = |ifft2(fft2(img) · kernel)|` with the kernel built from the index map of `np.fft.fftfreq` (rows ↔ f_y, columns ↔
 f_x); jitter and smear renormalise to the input total. `np.fft.fft2/ifft2` are contracts: the plain DFT pair with origin
@@ -21,34 +22,38 @@ class AbsLike (K : Type) (R : Type) where
 /-- `np.fft.fftfreq(n)[i] · n`: `0, 1, …, ⌈n/2⌉-1, -⌊n/2⌋, …, -1` (documented index map; contract) -/
 def fftfreqIdx (n i : Int) : Int := if i < (n + 1) / 2 then i else i - n
 
+/-- evaluate an array once into a table (NumPy materialises every intermediate array); identical to the array at every
+index (`Lemmas/Blur.force_get`). Only here so that the executable model does not recompute lazily defined entries. -/
+def Arr.force {A : Type} (a : Arr A) : Arr A :=
+  let tbl : Array A := ((List.range (a.s0 * a.s1).toNat).map fun k => a.get (Int.ofNat k / a.s1) (Int.ofNat k % a.s1)).toArray
+  { a with get := fun i j =>
+      if 0 ≤ i ∧ i < a.s0 ∧ 0 ≤ j ∧ j < a.s1 then tbl.getD (i * a.s1 + j).toNat (a.get i j) else a.get i j }
+
 variable {K R : Type} [Add R] [Sub R] [Mul R] [Neg R] [Div R] [Zero R] [RealLike R] [BlurLike R]
   [Add K] [Mul K] [Zero K] [CxLike K R] [AbsLike K R]
 
 /-- `np.fft.fftfreq(n)[i]` -/
 def fftfreq (n i : Int) : R := RealLike.ofInt (fftfreqIdx n i) / RealLike.ofInt n
 
-/-- `detector.pixel`: `kernel = outer(sinc(f_y·os), sinc(f_x·os))` (rows ↔ y, columns ↔ x) -/
+/-- `detector.pixel`'s transfer function. Shape and entries are the definitions regenerated from the source
+(`Gen.bwPixelKernel`: `np.dot(mtf_y[:, newaxis], mtf_x[newaxis, :])`, `mtf = sinc(fftfreq(img.shape[k])·oversample)`) -/
 def pixelKernel (s0 s1 : Int) (os : R) : Arr R :=
-  { s0 := s0, s1 := s1, get := fun i j => BlurLike.sinc (fftfreq s0 i * os) * BlurLike.sinc (fftfreq s1 j * os) }
+  { s0 := (Gen.bwPixelKernelShape s0 s1).1, s1 := (Gen.bwPixelKernelShape s0 s1).2,
+    get := Gen.bwPixelKernel BlurLike.sinc BlurLike.exp RealLike.sqrt BlurLike.sin BlurLike.cos BlurLike.pi RealLike.ofInt
+      fftfreq s0 s1 os }
 
-/-- `convolvable.jitter`: `exp(-2 (π · (scale/pixelscale) · oversample · ρ)²)`, `ρ = sqrt(f_x² + f_y²)` -/
+/-- `convolvable.jitter`'s transfer function `exp(-2 (π · (scale/pixelscale) · oversample · ρ)²)`, regenerated from the source -/
 def jitterKernel (s0 s1 : Int) (scale pixelscale os : R) : Arr R :=
-  { s0 := s0, s1 := s1,
-    get := fun i j =>
-      let fy : R := fftfreq s0 i
-      let fx : R := fftfreq s1 j
-      let rho := RealLike.sqrt (fx * fx + fy * fy)
-      let a := BlurLike.pi * (scale / pixelscale) * os * rho
-      BlurLike.exp (-(RealLike.ofInt 2 * (a * a))) }
+  { s0 := (Gen.bwJitterKernelShape s0 s1).1, s1 := (Gen.bwJitterKernelShape s0 s1).2,
+    get := Gen.bwJitterKernel BlurLike.sinc BlurLike.exp RealLike.sqrt BlurLike.sin BlurLike.cos BlurLike.pi RealLike.ofInt
+      fftfreq s0 s1 scale pixelscale os }
 
-/-- `convolvable.smear`: `sinc((sin a · f_y + cos a · f_x) · (distance/pixelscale) · oversample)`, `a = radians(angle)` -/
+/-- `convolvable.smear`'s transfer function `sinc((sin a · f_y + cos a · f_x) · (distance/pixelscale) · oversample)`,
+`a = radians(angle)`, regenerated from the source -/
 def smearKernel (s0 s1 : Int) (distance angleDeg pixelscale os : R) : Arr R :=
-  { s0 := s0, s1 := s1,
-    get := fun i j =>
-      let fy : R := fftfreq s0 i
-      let fx : R := fftfreq s1 j
-      let a := angleDeg * (BlurLike.pi / RealLike.ofInt 180)
-      BlurLike.sinc ((BlurLike.sin a * fy + BlurLike.cos a * fx) * (distance / pixelscale) * os) }
+  { s0 := (Gen.bwSmearKernelShape s0 s1).1, s1 := (Gen.bwSmearKernelShape s0 s1).2,
+    get := Gen.bwSmearKernel BlurLike.sinc BlurLike.exp RealLike.sqrt BlurLike.sin BlurLike.cos BlurLike.pi RealLike.ofInt
+      fftfreq s0 s1 distance angleDeg pixelscale os }
 
 /-- `np.fft.fft2(x)` (contract): plain DFT, origin at index 0, no normalisation -/
 def fft2 (x : Arr K) : Arr K :=
@@ -70,25 +75,31 @@ def mulKernel (X : Arr K) (k : Arr R) : Arr K := { X with get := fun i j => X.ge
 /-- `np.abs` pointwise -/
 def absArr (X : Arr K) : Arr R := { s0 := X.s0, s1 := X.s1, get := fun i j => AbsLike.cabs (X.get i j) }
 
-/-- `np.abs(np.fft.ifft2(np.fft.fft2(img) * kernel))` -/
+/-- `np.abs(np.fft.ifft2(np.fft.fft2(img) * kernel))`, every intermediate array materialised once -/
 def blurCore (K : Type) [Add K] [Mul K] [Zero K] [CxLike K R] [AbsLike K R] (img k : Arr R) : Arr R :=
-  absArr (ifft2 (R := R) (mulKernel (fft2 (R := R) (toCx (K := K) img)) k))
+  (absArr (ifft2 (R := R) (mulKernel (fft2 (R := R) (toCx (K := K) img)).force k).force)).force
 
 /-- `out * np.sum(img) / np.sum(out)` -/
-def renorm (img out : Arr R) : Arr R := { out with get := fun i j => out.get i j * arrSum img / arrSum out }
+def renorm (img out : Arr R) : Arr R :=
+  let S := arrSum img
+  let T := arrSum out
+  { out with get := fun i j => out.get i j * S / T }
 
 /-- `lentil.detector.pixel(img, oversample)` -/
 def pixel (K : Type) [Add K] [Mul K] [Zero K] [CxLike K R] [AbsLike K R] (img : Arr R) (os : R) : Arr R :=
-  blurCore K img (pixelKernel img.s0 img.s1 os)
+  let out := blurCore K img (pixelKernel img.s0 img.s1 os)
+  if Gen.bwPixelRenorm then renorm img out else out
 
 /-- `lentil.convolvable.jitter(img, scale, pixelscale, oversample)` -/
 def jitter (K : Type) [Add K] [Mul K] [Zero K] [CxLike K R] [AbsLike K R] (img : Arr R) (scale pixelscale os : R) : Arr R :=
-  renorm img (blurCore K img (jitterKernel img.s0 img.s1 scale pixelscale os))
+  let out := blurCore K img (jitterKernel img.s0 img.s1 scale pixelscale os)
+  if Gen.bwJitterRenorm then renorm img out else out
 
 /-- `lentil.convolvable.smear(img, distance, angle, pixelscale, oversample)` (angle in degrees, given) -/
 def smear (K : Type) [Add K] [Mul K] [Zero K] [CxLike K R] [AbsLike K R] (img : Arr R) (distance angleDeg pixelscale os : R) :
     Arr R :=
-  renorm img (blurCore K img (smearKernel img.s0 img.s1 distance angleDeg pixelscale os))
+  let out := blurCore K img (smearKernel img.s0 img.s1 distance angleDeg pixelscale os)
+  if Gen.bwSmearRenorm then renorm img out else out
 
 /-- `np.roll(img, (a, b), axis=(0, 1))`: `out[i, j] = img[(i - a) mod s0, (j - b) mod s1]` -/
 def roll {A : Type} (img : Arr A) (a b : Int) : Arr A :=
